@@ -510,6 +510,11 @@ func runSharedAddress(cap, n int) (sig, what string) {
 	if servedNow > cap {
 		sig, what = "c18:caps:inbound-cap-exceeded:shared-address", fmt.Sprintf("%s: %d connections are being served at once (Peers() lists %d)", desc, servedNow, len(s.Peers()))
 	}
+	// the newest connection is the node coming back while its old connections linger (half-open, not yet noticed
+	// to be dead): it must be the one that is served
+	if sig == "" && cap >= 1 && n >= 2 && len(ts) > 0 && !probe(ts[len(ts)-1]) {
+		sig, what = "c18:caps:reconnect-locked-out:shared-address", fmt.Sprintf("%s: the newest connection is not served (%d older ones are) - a node that reconnects while its old connection has not been noticed to be dead is locked out", desc, servedNow)
+	}
 	closeDone := make(chan struct{})
 	go func() { s.Close(); close(closeDone) }()
 	select {
